@@ -1,7 +1,7 @@
 (* Model/Run.v — runner entry points: [dispatch fn tokens] decodes a case, runs the model over CQ
    (Gaussian rationals) and encodes the result.  Malformed token streams give [-1]. *)
 From Coq Require Import List Bool ZArith NArith.
-From CC Require Import Theory.Field Theory.Complex Model.Network Model.Codec.
+From CC Require Import Theory.Field Theory.Complex Model.Network Model.Codec Model.Transformers.
 Import ListNotations.
 
 (* fn 1: full bias-point solution: potentials of node_labels (sorted), then v,i,p of every branch in
@@ -16,11 +16,28 @@ Definition run_solve (n : network CQ) : list Z :=
                (branches n)
   end.
 
+(* fn 2: network transformers.  tokens: op, network, then op-specific arguments *)
+Definition run_transform (op : Z) : parser (list Z) :=
+  let* n := pnetwork in
+  match op with
+  | 1 => let* g := plabel in pret (eres enetwork (switch_ground_node n g))
+  | 2 => let* id := plabel in pret (eres enetwork (remove_element n id))
+  | 3 => pret (eres enetwork (remove_open_circuit_elements n))
+  | 4 => let* keep := plist pelem in pret (eres enetwork (remove_short_circuit_elements n keep))
+  | 5 => let* keep := plist pelem in pret (eres enetwork (short_circuitify_voltage_sources n keep))
+  | 6 => let* keep := plist pelem in pret (eres enetwork (open_circuitify_current_sources n keep))
+  | 7 => let* keep := plist pelem in pret (eres enetwork (remove_ideal_current_sources n keep))
+  | 8 => let* keep := plist pelem in pret (eres enetwork (remove_ideal_voltage_sources n keep))
+  | 9 => let* keep := plist pelem in pret (eres enetwork (passive_network n keep))
+  | _ => fun _ => None
+  end%Z.
+
 Definition with_parse {A} (p : parser A) (f : A -> list Z) (ts : list Z) : list Z :=
   match p ts with Some (a, []) => f a | _ => [(-1)%Z] end.
 
 Definition dispatch (fn : Z) (ts : list Z) : list Z :=
   match fn with
   | 1 => with_parse pnetwork run_solve ts
+  | 2 => match ts with op :: r => with_parse (run_transform op) (fun x => x) r | [] => [(-1)%Z] end
   | _ => [(-2)%Z]
   end%Z.
